@@ -1,0 +1,15 @@
+//go:build verif
+
+package components
+
+import "github.com/preslavrachev/gomjml/mjml/options"
+
+// Exports for the verification harness.
+
+// VerifApplyInlineStylesToHTML runs the inline-style scanner over an HTML fragment.
+func VerifApplyInlineStylesToHTML(html string, styles map[string][]options.InlineStyle) string {
+	return applyInlineStylesToHTML(html, styles, nil)
+}
+
+// VerifFindTagEnd exposes findTagEnd.
+func VerifFindTagEnd(value string, start int) int { return findTagEnd(value, start) }
